@@ -271,9 +271,8 @@ impl pipe::Sink for ForwardedStreamSink {
         }
 
         match &mut self.state {
-            SinkState::Idle | SinkState::WaitingResponse(_) => {
-                Err(io::Error::new(ErrorKind::Other, "Invalid state"))
-            }
+            SinkState::Idle => Err(io::Error::new(ErrorKind::Other, "Invalid state")),
+            SinkState::WaitingResponse(x) => x.respond.wait_interim_sent().await,
             SinkState::WaitingChunkPrefix(_) | SinkState::WaitingChunkSuffix(_) => Ok(()),
             SinkState::TransferringBodyNonEncoded(x) => x.sink.wait_writable().await,
             SinkState::TransferringBodyChunked(x) => x.sink.wait_writable().await,
@@ -307,8 +306,8 @@ impl ForwardedStreamSink {
 
         if (100..200).contains(&response.status.as_u16()) {
             state.respond.send_intermediate_response(response)?;
-            // the rest of the segment is the next response, not back-pressure
-            self.fake_unsent = !tail.is_empty();
+            // the rest of the segment is the next response: it is handed back, and
+            // `wait_writable` lets the client side take the interim one first
             return Ok(tail);
         }
 
